@@ -205,48 +205,49 @@ Section Del.
   Variable rec : list N -> list keypath -> res (option (entry * list keypath)).
 
   (* delete_jsonb_array_by_keypath: Some (builder, keypath afterwards) | None.  `keypath` is one VecDeque shared by
-     all levels (pop_front), so it is threaded through the loop state. *)
+     all levels (pop_front), so it is threaded through the loop state (i, builder, keypath). *)
+  Definition del_arr_step (idx : N) (st : N * list entry * list keypath) (j : je) (item : list N)
+    : res ((N * list entry * list keypath) + option (list entry * list keypath)) :=
+    let '(n, es, kp) := st in
+    if negb (n =? idx) then Ok (inl (n + 1, es ++ [ERaw j item], kp))
+    else if negb (kp_nil kp) then
+      if fst j =? CONTAINER_TAG then
+        do o <- rec item kp;
+        match o with
+        | Some (e, kp') => Ok (inl (n + 1, es ++ [e], kp'))
+        | None => Ok (inr None)
+        end
+      else Ok (inr None)
+    else Ok (inl (n + 1, es, kp)).
+  Definition del_arr_fin (st : N * list entry * list keypath) : res (option (list entry * list keypath)) :=
+    Ok (Some (snd (fst st), snd st)).
   Definition del_arr (value : list N) (hdr : N) (ks : list keypath) : res (option (list entry * list keypath)) :=
     let len := Z.of_N (hdr_len hdr) in           (* as i32: < 2^29 *)
     match ks with
     | KIndex i :: r =>
         let idx := (if i <? 0 then len + i else i)%Z in      (* len >= 0 > i: no overflow *)
         if ((idx <? 0) || (len <=? idx))%Z then Ok None else
-        let idx := Z.to_N idx in
-        iterate_array value hdr
-          (fun (st : N * list entry * list keypath) j item =>
-             let '(n, es, kp) := st in
-             if negb (n =? idx) then Ok (inl (n + 1, es ++ [ERaw j item], kp))
-             else if negb (kp_nil kp) then
-               if fst j =? CONTAINER_TAG then
-                 do o <- rec item kp;
-                 match o with
-                 | Some (e, kp') => Ok (inl (n + 1, es ++ [e], kp'))
-                 | None => Ok (inr None)
-                 end
-               else Ok (inr None)
-             else Ok (inl (n + 1, es, kp)))
-          (fun st => let '(_, es, kp) := st in Ok (Some (es, kp))) (0, [], r)
+        iterate_array value hdr (del_arr_step (Z.to_N idx)) del_arr_fin (0, [], r)
     | _ => Ok None
     end.
 
+  Definition del_obj_step (name : list N) (st : obuilder * list keypath) (key : list N) (j : je) (item : list N)
+    : res ((obuilder * list keypath) + option (obuilder * list keypath)) :=
+    let '(b, kp) := st in
+    if negb (bytes_eqb key name) then Ok (inl (obj_push b key (ERaw j item), kp))
+    else if negb (kp_nil kp) then
+      if fst j =? CONTAINER_TAG then
+        do o <- rec item kp;
+        match o with
+        | Some (e, kp') => Ok (inl (obj_push b key e, kp'))
+        | None => Ok (inr None)
+        end
+      else Ok (inr None)
+    else Ok (inl (b, kp)).
   Definition del_obj (value : list N) (hdr : N) (ks : list keypath) : res (option (obuilder * list keypath)) :=
     match ks with
     | KName name :: r | KQuoted name :: r =>
-        iterate_object_entries value hdr
-          (fun (st : obuilder * list keypath) key j item =>
-             let '(b, kp) := st in
-             if negb (bytes_eqb key name) then Ok (inl (obj_push b key (ERaw j item), kp))
-             else if negb (kp_nil kp) then
-               if fst j =? CONTAINER_TAG then
-                 do o <- rec item kp;
-                 match o with
-                 | Some (e, kp') => Ok (inl (obj_push b key e, kp'))
-                 | None => Ok (inr None)
-                 end
-               else Ok (inr None)
-             else Ok (inl (b, kp)))
-          (fun st => Ok (Some st)) ([], r)
+        iterate_object_entries value hdr (del_obj_step name) (fun st => Ok (Some st)) ([], r)
     | _ => Ok None
     end.
 End Del.
